@@ -67,6 +67,11 @@ type cliCase struct {
 func genCLI(t *rapid.T) *cliCase {
 	c := &cliCase{P: gen.Profile(t, hostOpts), Assigns: genAssigns(t, 4), Cmd: rapid.SampledFrom(commands).Draw(t, "cmd"),
 		Param: rapid.SampledFrom(hostileStrings).Draw(t, "param"), Gran: rapid.SampledFrom([]string{"functions", "filefunctions", "files", "lines", "addresses"}).Draw(t, "gran")}
+	if paramCommands[c.Cmd] && len(c.P.Locations) > 0 && rapid.Bool().Draw(t, "addrparam") {
+		// list / weblist / disasm / peek also take an address: one of the profile's own, in hex or decimal
+		a := c.P.Locations[rapid.IntRange(0, len(c.P.Locations)-1).Draw(t, "addrloc")].Address
+		c.Param = rapid.SampledFrom([]string{fmt.Sprintf("0x%x", a), fmt.Sprint(a), fmt.Sprintf("0x%x", a), fmt.Sprintf("0x%x", a+1)}).Draw(t, "addrform")
+	}
 	return c
 }
 
@@ -135,7 +140,13 @@ func genSess(t *rapid.T) *sessCase {
 			cmd := rapid.SampledFrom(commands).Draw(t, "cmd")
 			line := cmd
 			if paramCommands[cmd] {
-				line += " " + rapid.SampledFrom([]string{".", "main", "(", "zzz"}).Draw(t, "param")
+				param := rapid.SampledFrom([]string{".", "main", "(", "zzz"}).Draw(t, "param")
+				if len(c.P.Locations) > 0 && rapid.Bool().Draw(t, "addrparam") {
+					// list / weblist / disasm / peek also take an address: one of the profile's own, in hex or decimal
+					a := c.P.Locations[rapid.IntRange(0, len(c.P.Locations)-1).Draw(t, "addrloc")].Address
+					param = rapid.SampledFrom([]string{fmt.Sprintf("0x%x", a), fmt.Sprint(a), fmt.Sprintf("%x", a), fmt.Sprintf("0x%x", a+1), "0x0", "18446744073709551615", "0xffffffffffffffffff"}).Draw(t, "addrform")
+				}
+				line += " " + param
 			}
 			if rapid.Bool().Draw(t, "args") {
 				line += " " + rapid.SampledFrom([]string{"3", "-cum", "main", "-zz", "(", "-(", ">out1", "> out2", "0", "-1"}).Draw(t, "arg")
